@@ -150,6 +150,26 @@ func c18Run(res *vh.Result, ci int, c c18Cfg, rng *vh.Rng) {
 			return 0
 		}
 	}
+	if c.Scenario == "ticker-blocked-while-its-period-empties" {
+		// the one-second period's first query takes 1.3 s: its ticker fires again while the bulk removal keeps the
+		// periodic server's event queue full
+		k.Latency = func(r *vh.KReq) time.Duration {
+			if r.Cmd == vh.KCmdGetMul {
+				return 1300 * time.Millisecond
+			}
+			return 0
+		}
+	}
+	if c.Scenario == "real-ticks-slow-query-reassociate" {
+		// real 1 s tickers; every periodic query is slow, so that the bulk removal fills the periodic server's event
+		// queue while a ticker is trying to post its next tick
+		k.Latency = func(r *vh.KReq) time.Duration {
+			if r.Cmd == vh.KCmdGetMul {
+				return 700 * time.Millisecond
+			}
+			return 0
+		}
+	}
 	if c.Scenario == "failing-slow-tick-then-reassociate" {
 		// the periodic query is slow and fails (a URR vanished meanwhile): while it is in progress the bulk removal
 		// fills the periodic server's event queue
@@ -288,7 +308,14 @@ func c18Run(res *vh.Result, ci int, c c18Cfg, rng *vh.Rng) {
 		ies := []*vh.IE{vh.NodeIDv4(owner.IP), vh.FSEIDv4(uint64(0x1000+i), owner.IP),
 			vh.Rule{Kind: "FAR", ID: 1, Action: 0xc, Peer: 1, TEID: 9}.CreateIE()}
 		for u := 1; u <= c.URRs; u++ {
-			ies = append(ies, vh.Rule{Kind: "URR", ID: uint64(u), Method: 2, Trig: 3, Period: uint32(3600 * (1 + (i+u)%c.Periods))}.CreateIE())
+			per := uint32(3600 * (1 + (i+u)%c.Periods))
+			if c.Scenario == "real-ticks-slow-query-reassociate" {
+				per = 1 // real one-second tickers
+			}
+			if c.Scenario == "ticker-blocked-while-its-period-empties" && i == 0 && u == 1 {
+				per = 1 // one URR of the first session alone has a real one-second ticker
+			}
+			ies = append(ies, vh.Rule{Kind: "URR", ID: uint64(u), Method: 2, Trig: 3, Period: per}.CreateIE())
 		}
 		ies = append(ies, vh.Rule{Kind: "PDR", ID: 1, FAR: 1, URRs: []uint32{1}}.CreateIE())
 		d := doReq(owner, vh.BuildMsg(vh.MEstReq, &zero, seq, ies...), seq)
@@ -364,6 +391,22 @@ func c18Run(res *vh.Result, ci int, c c18Cfg, rng *vh.Rng) {
 		}
 	}
 	switch c.Scenario {
+	case "ticker-blocked-while-its-period-empties":
+		what = "the only URR of a one-second period is removed (followed by a bulk removal) while its slow query runs and its ticker fires again"
+		time.Sleep(1050 * time.Millisecond) // first real tick: the slow query is in progress
+		{
+			up := ups[0]
+			seq := owner.NextSeq()
+			requests = append(requests, reqAsync(owner, vh.BuildMsg(vh.MDelReq, &up, seq), seq))
+			time.Sleep(20 * time.Millisecond)
+			seq = owner.NextSeq()
+			requests = append(requests, reqAsync(owner, vh.BuildMsg(vh.MAssocReq, nil, seq, vh.NodeIDv4(owner.IP), vh.RecoveryTS(2)), seq))
+		}
+	case "real-ticks-slow-query-reassociate":
+		what = "re-associating a node with many sessions while real tickers fire and periodic queries are slow"
+		time.Sleep(1100 * time.Millisecond) // the first real tick is being queried (slowly) now
+		seq := owner.NextSeq()
+		requests = append(requests, reqAsync(owner, vh.BuildMsg(vh.MAssocReq, nil, seq, vh.NodeIDv4(owner.IP), vh.RecoveryTS(2)), seq))
 	case "failing-slow-tick-then-reassociate":
 		what = "re-associating a node with many sessions while a slow periodic query is about to fail"
 		injectTick()
@@ -492,6 +535,8 @@ func runC18(res *vh.Result) {
 		{Scenario: "direct-burst", Sessions: 4, URRs: 1, Periods: 1, Burst: 2000, Producers: 8},
 		{Scenario: "mixed", Sessions: 260, URRs: 2, Periods: 2, Burst: 600, Producers: 4, KLatUs: 200},
 		{Scenario: "failing-slow-tick-then-reassociate", Sessions: 300, URRs: 2, Periods: 1},
+		{Scenario: "real-ticks-slow-query-reassociate", Sessions: 300, URRs: 2, Periods: 1},
+		{Scenario: "ticker-blocked-while-its-period-empties", Sessions: 300, URRs: 2, Periods: 1},
 	}
 	n := vh.Tiered(len(grid), 300)
 	res.Cases(n, func(i int, rng *vh.Rng) {
@@ -499,7 +544,7 @@ func runC18(res *vh.Result) {
 		if i < len(grid) {
 			c = grid[i]
 		} else {
-			c = c18Cfg{Scenario: []string{"tick-then-reassociate", "tick-then-delete-storm", "multicast-burst", "direct-burst", "mixed", "failing-slow-tick-then-reassociate"}[rng.Intn(6)],
+			c = c18Cfg{Scenario: []string{"tick-then-reassociate", "tick-then-delete-storm", "multicast-burst", "direct-burst", "mixed", "failing-slow-tick-then-reassociate", "real-ticks-slow-query-reassociate", "ticker-blocked-while-its-period-empties"}[rng.Intn(8)],
 				Sessions: []int{10, 50, 100, 130, 200, 260, 300, 700, 1500}[rng.Intn(9)], URRs: rng.Range(1, 3), Periods: rng.Range(1, 3),
 				Burst: []int{100, 128, 129, 300, 600, 2000}[rng.Intn(6)], Producers: rng.Range(1, 8), KLatUs: []int{0, 0, 100, 1000}[rng.Intn(4)]}
 			if c.Sessions >= 700 {
